@@ -137,14 +137,32 @@ def run_chunk_item(it):
     base = {n: c05.run_op(fn, da, aux) for n, fn in ops.items()}
     res = {"evals": 0, "n_nontrivial": 0, "violations": [], "samples": [], "outcomes": {}, "parts": {}, "states": 0, "transitions": 0, "traces": 0}
     seen = set()
+    if it.get("dask_config"):
+        # the reference above was computed under the default configuration; everything below runs under the user's dask settings
+        import dask
+        with dask.config.set(it["dask_config"]):
+            return _chunk_loop(it, da, aux, ops, base, res, seen, ",dask-config:" + ",".join("%s=%s" % kv for kv in sorted(it["dask_config"].items())))
+    return _chunk_loop(it, da, aux, ops, base, res, seen, "")
+
+
+def _chunk_loop(it, da, aux, ops, base, res, seen, cfgpred):
     for ch in it["chunkings"]:
-        dac = da.chunk(ch)
-        auxc = {k: v.chunk({d: ch[d] for d in v.dims}) for k, v in aux.items()} if it.get("chunk_aux", True) else aux
+        if ch is None:  # numpy-backed input under this configuration
+            dac, auxc, ch = da, aux, {k: (SIZES[k],) for k in SIZES}
+        else:
+            dac = da.chunk(ch)
+            auxc = {k: v.chunk({d: ch[d] for d in v.dims}) for k, v in aux.items()} if it.get("chunk_aux", True) else aux
         for n, fn in ops.items():
             r = c05.run_op(fn, dac, auxc)
             res["evals"] += 1
             msg = c05.compare(r, base[n], F32_DERIVED.get(n, 1e-10))
-            if msg:
+            if msg and cfgpred:
+                sig = "%s|equals-in-memory-result|%s%s" % (n, chunk_pred(ch), cfgpred)
+                if sig not in seen:
+                    seen.add(sig)
+                    res["violations"].append(Violation(PROP, sig, "%s on chunks %s under dask config %s: %s" % (n, ch, it["dask_config"], msg),
+                                                       dict(kind="chunk", chunks={k: list(v) for k, v in ch.items()}, op=n, tier=it["tier"], dask_config=it["dask_config"])))
+            elif msg:
                 # minimise: find a single dimension whose chunking alone fails
                 pred = chunk_pred(ch)
                 mch = ch
@@ -162,8 +180,9 @@ def run_chunk_item(it):
                     res["violations"].append(Violation(PROP, sig, "%s on chunks %s: %s" % (n, ch, msg), dict(kind="chunk", chunks={k: list(v) for k, v in mch.items()}, op=n, tier=it["tier"])))
         if any(len(v) > 1 for v in ch.values()):
             res["n_nontrivial"] += 1
-    res["parts"]["A:chunkings x ops"] = res["evals"]
-    res["samples"].append(dict(part="A", chunks={k: list(v) for k, v in it["chunkings"][len(it["chunkings"]) // 2].items()}, ops=len(ops)))
+    res["parts"]["A:chunkings x ops" + (" (small dask array.chunk-size)" if cfgpred else "")] = res["evals"]
+    mid = it["chunkings"][len(it["chunkings"]) // 2]
+    res["samples"].append(dict(part="A", chunks={k: list(v) for k, v in (mid or {}).items()}, ops=len(ops)))
     return res
 
 
@@ -390,7 +409,7 @@ def replay(case):
     k = case["kind"]
     if k == "chunk":
         ch = {d: tuple(int(x) for x in v) for d, v in case["chunks"].items()}
-        r = run_chunk_item(dict(tier=case.get("tier", "quick"), chunkings=[ch]))
+        r = run_chunk_item(dict(tier=case.get("tier", "quick"), chunkings=[ch], dask_config=case.get("dask_config")))
         return [v for v in r["violations"] if v.case["op"] == case["op"]]
     if k == "sched":
         build, reference = workloads()[case["name"]]
@@ -419,7 +438,7 @@ def run(rep, tier, seed, parts=None):
     common.load_wavespectra()
     rep.rule = ("A: dataset (time=3, site=2, freq=5, dir=4): every composition of every dimension into chunks (thorough: all 1024 "
                 "chunkings; quick: every single-dimension composition, all-singletons and every pair of two-part splits) x %d operations, "
-                "synchronous scheduler, vs the in-memory result. B: every execution order (linear extension; or all orders within a "
+                "synchronous scheduler, vs the in-memory result; the numpy-backed input and 6 chunkings again under a dask configuration with a 128-byte automatic block size. B: every execution order (linear extension; or all orders within a "
                 "deviation bound) of the real dask graphs of 6 workloads incl. two datasets of different grid shapes in one graph, under a "
                 "controlled scheduler. C: every interleaving of 2 threads x 8 workloads with at most 1 (thorough: 2 for the numpy-level "
                 "workloads) preemptions; scheduling points = line events in wavespectra frames. D: free-running threaded scheduler with "
@@ -440,6 +459,11 @@ def run(rep, tier, seed, parts=None):
         for i in range(0, len(chs), n):
             items.append(dict(kind="A", tier=tier, chunkings=chs[i:i + n]))
         rep.extra["chunkings"] = len(chs)
+        # a user configuration with a tiny automatic block size (array.chunk-size): "auto" chunking then splits every dimension
+        whole = {d: (SIZES[d],) for d in SIZES}
+        small = [None, dict(whole), {d: (1,) * SIZES[d] for d in SIZES}] + [dict(whole, **{d: (1, SIZES[d] - 1)}) for d in SIZES]
+        for i in range(0, len(small), 2):
+            items.append(dict(kind="A", tier=tier, chunkings=small[i:i + 2], dask_config={"array.chunk-size": "128B"}))
     if parts is None or "B" in parts:
         big = ("tp/site-chunks", "hs+stats/freq-chunks", "ptm3(smooth)/time-chunks")
         for name in workloads():
